@@ -151,6 +151,14 @@ def fam_predicate(res, s, v, spec, what, n=None, expand=False):
         return
     t = all_conv(expand_eq(t))
     g = spec
+    rect = v.f.get('rect')
+    if rect and not v.f['dep'] and rangearg(rect) is not None and vecshape(rangearg(rect)) is None:
+        # typed instantiation on a scalar bound: anyLessThan(a, b) is the scalar a < b (range.h, decided as `scalar anyLessThan`)
+        def scalar_lt(x):
+            if x[0] == 'call' and x[1] == 'anyLessThan' and len(x[2]) == 2:
+                return ('b', '<', x[2][0], x[2][1])
+            return x
+        t, g = map_terms(t, scalar_lt), map_terms(g, scalar_lt)
     computed = []
 
     def scan_atoms(x):
@@ -205,9 +213,11 @@ def fam_predicate(res, s, v, spec, what, n=None, expand=False):
     arithmetic = []
     map_terms(t, scan_rounded)
     if arithmetic and not rounded:
-        res.bad(R1, '%s decides on sums / differences of the bounds (`%s`) instead of comparing the bounds: floating-point sums round '
-                    '(boxes that share exactly a face are mis-decided) and for an empty box (+inf, -inf) they are inf - inf = NaN, '
-                    'which makes every comparison false; integer sums can overflow' % (what, arithmetic[0][:160]), 'arithmetic-operand')
+        res.bad(R1, '%s decides on sums / differences of the bounds (`%s`) instead of comparing the bounds themselves: comparing '
+                    'differences is equivalent to comparing the bounds only for a non-empty range and exact arithmetic - for an empty '
+                    '(inverted) range `upper - lower` is negative, i.e. wraps to a huge value in unsigned arithmetic, so the test accepts '
+                    'almost every point; floating-point sums round (boxes sharing exactly a face are mis-decided) and are inf - inf = NaN '
+                    'for the empty box; integer sums can overflow' % (what, arithmetic[0][:160]), 'arithmetic-operand')
         return
     if rounded:
         res.bad(R1, '%s decides on quantities obtained by halving (`%s`): center() is (lower+upper)/2, which truncates for integer '
@@ -1043,14 +1053,6 @@ def raybox_sign_ordered(res, s, v, tu):
         return cm(('b', '*', ('b', '-', M(box, bound), org), ('call', 'rcp_safe', (dirp,))))
     nN, nF = b[0][1], b[1][1]
     VN, VF = ('v', nN), ('v', nF)
-    which = {}
-    for nm, init in ((nN, b[0][2]), (nF, b[1][2])):
-        hit = [bd for bd in (LO, HI) if cm(init) == slab(bd)]
-        if not hit:
-            return False
-        which[nm] = hit[0]
-    if {which[nN], which[nF]} != {LO, HI}:
-        return False
     ini, cond, inc, lb = b[2][1], b[2][2], b[2][3], b[2][4]
     if not (len(ini) == 1 and ini[0][0] == 'decl' and all_conv(ini[0][2]) == ZERO):
         return False
@@ -1059,15 +1061,51 @@ def raybox_sign_ordered(res, s, v, tu):
     bound = ('lit', Fraction(n)) if isinstance(n, int) else ('tp', n)
     if all_conv(cond) != ('b', '<', I, bound) or inc not in (('u', 'post++', I), ('u', '++', I)):
         return False
-    if not (len(lb) == 1 and lb[0][0] == 'if' and not lb[0][3] and len(lb[0][2]) == 1 and lb[0][2][0][0] == 'expr'):
-        return False
-    sw = lb[0][2][0][1]
-    if not (sw[0] == 'call' and sw[1] == 'swap' and set(sw[2]) == {('idx', VN, I), ('idx', VF, I)}):
+    which = {}
+    if len(lb) == 1 and lb[0][0] == 'if':
+        # form (a): both slab vectors computed, then `if (P) swap(near[i], far[i])`
+        for nm, init in ((nN, b[0][2]), (nF, b[1][2])):
+            hit = [bd for bd in (LO, HI) if cm(init) == slab(bd)]
+            if not hit:
+                return False
+            which[nm] = hit[0]
+        if {which[nN], which[nF]} != {LO, HI}:
+            return False
+        if not (not lb[0][3] and len(lb[0][2]) == 1 and lb[0][2][0][0] == 'expr'):
+            return False
+        sw = lb[0][2][0][1]
+        if not (sw[0] == 'call' and sw[1] == 'swap' and set(sw[2]) == {('idx', VN, I), ('idx', VF, I)}):
+            return False
+        pred_term = lb[0][1]
+    elif len(lb) == 2 and all(st[0] == 'expr' and st[1][0] == 'asg' and st[1][1] == '=' and st[1][3][0] == '?:' for st in lb):
+        # form (b): near[i] = P ? t_hi[i] : t_lo[i];  far[i] = P ? t_lo[i] : t_hi[i];
+        sel = {}
+        preds = set()
+        for st in lb:
+            lhs, c = st[1][2], st[1][3]
+            if lhs not in (('idx', VN, I), ('idx', VF, I)):
+                return False
+
+            def slab_of(x):
+                if x[0] == 'idx' and x[2] == I:
+                    hit = [bd for bd in (LO, HI) if cm(x[1]) == slab(bd)]
+                    return hit[0] if hit else None
+                return None
+            yes, no = slab_of(c[2]), slab_of(c[3])
+            if yes is None or no is None or yes == no:
+                return False
+            sel[lhs[1][1]] = (yes, no)
+            preds.add(c[1])
+        if len(preds) != 1 or set(sel) != {nN, nF} or sel[nN][0] != sel[nF][1] or sel[nN][1] != sel[nF][0]:
+            return False
+        which = {nN: sel[nN][1], nF: sel[nF][1]}      # value when the condition is false; exchanged when it is true
+        pred_term = preds.pop()
+    else:
         return False
     d_i = ('idx', dirp, I)
-    sp = sign_predicate(lb[0][1], d_i)
+    sp = sign_predicate(pred_term, d_i)
     if sp is None:
-        res.und(R5, 'intersectRayBox: per-axis swap condition `%s` is not a sign test on dir[i]' % show(lb[0][1], names))
+        res.und(R5, 'intersectRayBox: per-axis swap condition `%s` is not a sign test on dir[i]' % show(pred_term, names))
         return True
     # the returned range: which variable is joined with which bound of tRange under which reduction
     t = b[3][1]
@@ -1104,13 +1142,13 @@ def raybox_sign_ordered(res, s, v, tu):
     pol, why = rcp_safe_policy(tu)
     if pol is None:
         res.und(R5, 'intersectRayBox orders the slab distances by `%s` but the sign of rcp_safe(dir) cannot be determined: %s' % (
-            show(lb[0][1], names), why))
+            show(pred_term, names), why))
         return True
     if not forwards_to_rcp_safe_t(tu):
         res.und(R5, 'rcp_safe(float/double) does not simply forward to rcp_safe_t')
         return True
     pk, pp, pdesc = pol
-    cond_txt = show(lb[0][1], names)
+    cond_txt = show(pred_term, names)
     if kind == 'order' and pk == 'order':
         x = ('p', 0)
         fs = subst(swap_when, lambda z: x if z == d_i else None)
